@@ -801,7 +801,7 @@ func scenarios() []schedrun.Scenario {
 			})
 		}},
 		// the backend goroutine relays Forge messages while the client read loop delivers replies
-		{Name: "relay-vs-replies", Quick: 3, Thorough: -1, Body: func(x *sched.X) {
+		{Name: "relay-vs-replies", Quick: 3, Thorough: 5, Body: func(x *sched.X) {
 			r := newRelayEnv(x, true)
 			r.backendMsg(c13Op{K: "B", I: 5}) // client id 1
 			x.Go("backend", func() { r.backendMsg(c13Op{K: "B", I: 6}); r.backendMsg(c13Op{K: "B", I: 5, V: 1}) })
